@@ -18,6 +18,8 @@ STATIC_THEOREMS = [
     'SnapraidVerif.Raid.decode_exact',
     'SnapraidVerif.Props.C03.cauchy_decode_exact',
     'SnapraidVerif.Props.C03.power_decode_exact',
+    'SnapraidVerif.Props.C03.decode_with_intact',
+    'SnapraidVerif.Props.C03.decode_with_intact_z',
 ]
 
 def main(tier, seed):
